@@ -92,10 +92,11 @@ def rand_timing(rng, mode='any'):
     else:
         kw['text_time'] = q()
         kw['media_time'] = q()
+    fmt = rng.choice(['%sT%s', '%sT%s', '%s %s', '%sT%s.250000'])     # ISO-8601 spellings both parsers read
     if rng.random() < 0.2:
-        kw['started'] = '2020-01-01T%02d:%02d:00' % (rng.randint(0, 23), rng.randint(0, 59))
+        kw['started'] = fmt % ('2020-01-01', '%02d:%02d:00' % (rng.randint(0, 23), rng.randint(0, 59)))
     if rng.random() < 0.2:
-        kw['ended'] = '2020-01-02T%02d:%02d:30' % (rng.randint(0, 23), rng.randint(0, 59))
+        kw['ended'] = fmt % ('2020-01-02', '%02d:%02d:30' % (rng.randint(0, 23), rng.randint(0, 59)))
     return B.timing(**kw)
 
 
@@ -303,8 +304,10 @@ def rand_message(rng, state, kind, message_id, ids, pool=None, ro_id='RO', timin
         a = ref(S, allow_absent=False)
         b = ref(S, allow_absent=False, exclude=() if rng.random() < selfref else (a,))
         te = rng.random() < 0.5
-        return B.msg_doc(kind, message_id, ro_id, ids=[a, b], target=BLANK if te else ABSENT,
-                         target_el=te, **kw)
+        tgt = BLANK if te else ABSENT
+        if te and S and rng.random() < 0.3:
+            tgt = rng.choice(S)           # the spec wants it empty; a filled one must not matter
+        return B.msg_doc(kind, message_id, ro_id, ids=[a, b], target=tgt, target_el=te, **kw)
     if kind == 'roStorySend':
         k = ref(S, allow_absent=False)
         body = []
